@@ -205,12 +205,14 @@ def oracles(ctx):
         img = t1 * ar
         if {(t1 * x).yx for x in ar.positions()} != {x.yx for x in img.positions()}:
             ctx.violation('area image is not the image of its positions', {'t': [t1.position.yx, t1.orientation.name], 'area': at(ar)})
-        act = ACTS[r.randrange(8)]
-        np_ = get_next_position(p, o, act)
-        from gym_gridverse.envs.utils import _move_action_to_orientation as tbl
-        exp = Transform(p, o) * Position.from_orientation(tbl[act]) if act in tbl else p
-        if np_ != exp:
-            ctx.violation('get_next_position disagrees with the pose algebra', {'p': p.yx, 'o': o.name, 'action': act.name})
+        # the helper agrees with the pose algebra: MOVE_<dir> goes to pose * unit vector of <dir>, every other action stays (the statement,
+        # written without any table of the implementation); all 8 actions per case
+        for act in ACTS:
+            np_ = get_next_position(p, o, act)
+            rel = {'MOVE_FORWARD': Orientation.F, 'MOVE_BACKWARD': Orientation.B, 'MOVE_LEFT': Orientation.L, 'MOVE_RIGHT': Orientation.R}.get(act.name)
+            exp = Transform(p, o) * Position.from_orientation(rel) if rel is not None else p
+            if np_ != exp:
+                ctx.violation('get_next_position disagrees with the pose algebra', {'p': p.yx, 'o': o.name, 'action': act.name, 'got': np_.yx, 'expected': exp.yx})
     # transforming an area transforms exactly its set of positions: the image is the bounding box of the images of its corners
     # (small coordinates exhaustively, neighbouring cases differing in one coordinate; Transform * Position is a separate code path)
     for o in ORIS:
